@@ -1,0 +1,21 @@
+//go:build verif
+
+package query
+
+import "regexp/syntax"
+
+// Verification hooks (build tag verif only): thin wrappers around the unexported regexp optimiser steps.
+
+// VerifUncapture is uncapture (mutates and returns r).
+func VerifUncapture(r *syntax.Regexp) *syntax.Regexp { return uncapture(r) }
+
+// VerifHasCapture is hasCapture.
+func VerifHasCapture(r *syntax.Regexp) bool { return hasCapture(r) }
+
+// VerifConvertCapture is convertCapture.
+func VerifConvertCapture(r *syntax.Regexp, flags syntax.Flags) *syntax.Regexp {
+	return convertCapture(r, flags)
+}
+
+// VerifRegexpFlags is the parser's regexpFlags constant.
+const VerifRegexpFlags = regexpFlags
